@@ -285,6 +285,30 @@ def load_corpus():
     return out
 
 
+# ---- reader source tie ---------------------------------------------------------------------------------
+
+TIE_FORMATS = ("xyz", "rawxyz")
+
+
+def reader_tie_formats(tie_ok, tie_info):
+    """formats whose reader tie (DS.Props.SrcReaders) is broken: named by the broken theorems / untranslatable methods
+    (`xyz_*`, `parseXyz_eq`, `rawxyz_*`, `parseRawxyz_eq`); when nothing can be attributed, all tied formats"""
+    if tie_ok:
+        return set()
+    names = list(tie_info.get("broken_theorems") or [])
+    for v in (tie_info.get("translator") or {}).values():
+        if isinstance(v, dict):
+            names += list((v.get("untranslatable") or {}).keys())
+    out = set()
+    for n in names:
+        low = n.lower()
+        if "rawxyz" in low:
+            out.add("rawxyz")
+        elif "xyz" in low:
+            out.add("xyz")
+    return out or set(TIE_FORMATS)
+
+
 # ---- the check ---------------------------------------------------------------------------------------
 
 class Tally:
@@ -369,6 +393,10 @@ def run(ck):
             "%d sampled per format, stratified by seed document" % QUICK_MUTANTS if ck.tier == "quick" else "all"))
     # 1. Lean obligations over the generated handler tuples
     ok, info = ck.lean_obligations("DS.Props.C13", extra_targets=["DS.Gen.Handlers"])
+    # reader tie: `xyzRun` / `rawxyzRun` ARE the current source of P_xyz.parseLines / P_rawxyz.parseLines (translate/src_readers.py:
+    # statement-by-statement transliteration; DS.Props.SrcReaders proves the models equal to it for every abstract document)
+    tie_ok, tie_info = ck.source_tie("DS.Props.SrcReaders", groups=("readers",))
+    tie_broken_fmts = reader_tie_formats(tie_ok, tie_info)
     for p in rep["problems"]:
         ck.fail("translator:" + p.split(":")[0], "translate/handlers.py: " + p,
                 {"kind": "translator", "detail": p}, no_failing_input=True)
@@ -411,10 +439,12 @@ def run(ck):
         cases = [(txt, G.mutant_descriptors(txt)) for name, txt in good[fmt]]
         total = sum(len(ds) for _, ds in cases)
         todo = []
-        if ck.tier == "quick" and total > QUICK_MUTANTS:
+        # a broken reader tie of this format is not a verdict: twice the corruptions (and random documents below)
+        budget = QUICK_MUTANTS * (2 if fmt in tie_broken_fmts else 1)
+        if ck.tier == "quick" and total > budget:
             # equal share per seed document; what small documents do not use goes to the larger ones
             quota = {i: 0 for i in range(len(cases))}
-            left, open_ = QUICK_MUTANTS, set(quota)
+            left, open_ = budget, set(quota)
             while left > 0 and open_:
                 share = max(1, left // len(open_))
                 for i in sorted(open_):
@@ -474,11 +504,12 @@ def run(ck):
     nrand = QUICK_RANDOM if ck.tier == "quick" else 20000 // 6
     for fmt in G.FORMATS:
         texts = set()
+        wide = 4 if fmt in tie_broken_fmts else 1
         if fmt != "cif":
-            for _ in range(nrand):
+            for _ in range(nrand * wide):
                 texts.add(random_text(fmt, ck.rng))
         if good[fmt]:
-            for _ in range(nrand // 2 if fmt != "cif" else nrand // 4):
+            for _ in range((nrand // 2 if fmt != "cif" else nrand // 4) * wide):
                 texts.add(multi_fault(fmt, good[fmt], ck.rng))
         if fmt == "cif":
             texts |= set(A.CIF_TEXTS.values())
@@ -500,6 +531,11 @@ def run(ck):
             fmt, cnt, stream, m, r, text[:200]),
             {"kind": "correspondence", "format": fmt, "text": text, "model": m, "real": r, "stream": stream,
              "theorem": "correspondence stream %s/%s" % (stream, fmt)}, no_failing_input=True)
+    if tie_broken_fmts:
+        ck.notes.append("source tie DS.Props.SrcReaders broken (%s): search widened for %s (x2 single-fault corruptions, x4 random / "
+                        "multi-fault documents)" % (", ".join(tie_info.get("broken_theorems") or tie_info.get("failed_modules") or ["translator"]),
+                                                    ", ".join(sorted(tie_broken_fmts))))
+    ck.tie_verdict(tie_ok, tie_info, "C13 readers: parsers/p_xyz.py P_xyz.parseLines, parsers/p_rawxyz.py P_rawxyz.parseLines")
     if not ok and not ck.violations:
         ck.fail("lean-build", "Lean obligations of C13 no longer check: %r" % (info["failed_modules"],),
                 {"kind": "proof-obligation", "theorem": info["failed_modules"], "errors": info["errors"],
@@ -510,7 +546,14 @@ def run(ck):
     ck.coverage["unmodelled"] = tally.unmodelled
     ck.coverage["handler_tuples"] = rep["cfg"]
     ck.coverage["model_escapes"] = [e for e in esc if e not in ("-",)]
+    ck.coverage["reader_tie"] = {
+        "module": "DS.Props.SrcReaders", "ok": tie_ok, "tied": list(TIE_FORMATS),
+        "not_tied": "pdffit, discus, xcfg, pdb, cif: control flow tied differentially only",
+        "broken_formats": sorted(tie_broken_fmts)}
     ck.coverage["trusted_base"] += [
+        "translate/src_readers.py (statement-by-statement transliteration of P_xyz.parseLines / P_rawxyz.parseLines; its conventions "
+        "- tokens are non-empty strings, addNewAtom(str, xyz=list of floats) does not raise, message building does not raise - are "
+        "listed at the top of the file)",
         "translate/handlers.py (ast reading of the except clauses)",
         "harness/c13_abs.py (abstraction alpha; oracle fields computed with the real Lattice/numpy/_assign_auxiliaries/PyCifRW)"]
     ck.assumptions += [
